@@ -217,7 +217,7 @@ func TestC20List(t *testing.T) {
 					removed = append(removed[:i], removed[i+1:]...)
 					readds++
 				} else {
-					n := newNode(string("abc"[rapid.IntRange(0, 2).Draw(t, "k")]))
+					n := newNode([]string{"a", "bb", "ccc", "dddd", "b"}[rapid.IntRange(0, 4).Draw(t, "k")])
 					e = ent{string(nitro.VerifItemFromNode(n).Bytes()), n}
 				}
 				l.Add(e.node)
